@@ -16,7 +16,7 @@ out=$d/.pseed.out
   if git -C $wt apply "$d/patch.diff" 2>/dev/null; then
     mkdir -p $ev
     for p in C01 C02 C03 C04 C05 C06 C07 C08 C09 C10 C11 C12 C13 C14 C15 C16 C17 C18 C19 C20; do
-      o=$(CJET_REPO=$wt CJET_EVIDENCE_DIR=$ev timeout 900 /verif/check $p 2>&1); rc=$?
+      o=$(CJET_REPO=$wt CJET_EVIDENCE_DIR=$ev timeout 900 ${VERIF_CHECK:-/verif/check} $p 2>&1); rc=$?
       if [ $rc -ne 0 ]; then echo "== $p exit=$rc"; echo "$o" | grep -E "^  rule|ANALYSIS-BROKEN" | cut -c1-280; fi
     done
   else
